@@ -3,7 +3,7 @@
 #![allow(dead_code)]
 use orx_parallel::verif::{self, Event};
 use orx_parallel::ChunkSize;
-use std::collections::HashMap;
+use std::collections::{HashMap, VecDeque};
 use std::num::NonZeroUsize;
 use std::sync::atomic::{AtomicBool, AtomicUsize, Ordering};
 use std::sync::{Arc, Mutex};
@@ -595,6 +595,33 @@ pub struct Case {
     pub macro_sched: Option<Vec<usize>>,
     pub trail: bool,
     pub pid: usize,
+    /// elements taken from a concurrent-iterator source before it is turned into a parallel iterator
+    pub pre: usize,
+}
+
+/// a deque whose ring buffer is wrapped: the first half sits at the end of the allocation
+pub fn wrapped_deque(v: &[i64]) -> VecDeque<i64> {
+    let mut d = VecDeque::with_capacity(v.len() + 3);
+    let h = v.len() / 2;
+    for x in v[..h].iter().rev() {
+        d.push_front(*x);
+    }
+    for x in &v[h..] {
+        d.push_back(*x);
+    }
+    d
+}
+
+/// the order in which the sequential iterator of a std collection yields (reported per case)
+pub static EFFIN: Mutex<Option<Vec<i64>>> = Mutex::new(None);
+pub fn set_effin(v: Vec<i64>) {
+    *EFFIN.lock().unwrap_or_else(|e| e.into_inner()) = Some(v);
+}
+pub fn take_effin() -> String {
+    match EFFIN.lock().unwrap_or_else(|e| e.into_inner()).take() {
+        None => String::new(),
+        Some(v) => format!(" effin={}", fmt_list(&v)),
+    }
 }
 
 fn p64(s: &str) -> i64 {
@@ -725,6 +752,7 @@ pub fn parse_case(line: &str) -> Case {
         panic_at,
         trail,
         pid: n_ops,
+        pre: f.get("pre").map(|x| x.parse().unwrap()).unwrap_or(0),
         macro_sched: if f.get("macro").map(|x| *x == "1").unwrap_or(false) {
             Some(if f["sched"] == "-" {
                 vec![]
